@@ -58,20 +58,32 @@ def first_capacity(key, has_dts):
 def gen_cases(tier, rng):
     thorough = tier == "thorough"
     # (i) exhaustive small lengths
-    top = 20000 if thorough else 1200
     k = 0
-    for n in range(1, top + 1):
+    for n in range(1, 1201):
         for key in (0, 1):
             for diff in (0, 1):
                 for (pid, sid) in (VIDEO, AUDIO):
-                    ccs = (0, 15, 255) if n <= 1200 else ((n * 7 + key) % 256,)
-                    for cc in ccs:
+                    for cc in (0, 15, 255):
                         k += 1
                         pts = TS_VALUES[k % len(TS_VALUES)]
                         dts = pts if not diff else TS_VALUES[(k * 7 + 3) % len(TS_VALUES)]
                         if diff and dts == pts:
                             dts = (pts + 1) % M64
                         yield Case(pack_line(pid, sid, key, pts, dts, cc, "r%d.%d" % (n, n % 5)), cls="sweep-len")
+    if thorough:
+        # every length up to 20000: the flag combination rotates with the length, all
+        # eight combinations where the last packet is within 3 bytes of full / empty
+        for n in range(1201, 20001):
+            combos = [(n >> 0) & 1 | ((n // 184) & 1) << 1 | ((n // 7) & 1) << 2]
+            if any((n - first_capacity(kk, dd)) % 184 in (181, 182, 183, 0, 1, 2, 3) for kk in (0, 1) for dd in (0, 1)):
+                combos = range(8)
+            for c in combos:
+                key, diff, av = c & 1, (c >> 1) & 1, (c >> 2) & 1
+                pid, sid = (VIDEO, AUDIO)[av]
+                k += 1
+                pts = TS_VALUES[k % len(TS_VALUES)]
+                dts = pts if not diff else (pts + 3003) % M64
+                yield Case(pack_line(pid, sid, key, pts, dts, (n * 7 + c) % 256, "r%d.%d" % (n, n % 5)), cls="sweep-len-long")
     # (ii) PTS x DTS boundary cross
     for pts in TS_VALUES:
         for dts in TS_VALUES:
